@@ -8,29 +8,30 @@ EXPECT = {
     "m01_dec_relaxed": ["C02"],
     "m02_no_acquire_load": ["C02"],
     "m03_count_relaxed": ["C03"],
-    "m04_clone_arc_no_forget": ["C04", "C01"],
+    "m04_union_clone_second_leaks_count": ["C04", "C12"],
     "m05_offset_with_arc_no_manuallydrop": ["C04", "C01"],
     "m06_no_pad_to_align": ["C05"],
     "m07_offset_of_data_usize": ["C11"],
-    "m08_with_arc_mut_no_guard": ["C10"],
+    "m08_with_arc_mut_no_guard": ["C10", "C07"],
     "m09_offset_make_mut_no_manuallydrop": ["C07"],
     "m10_make_mut_always_inplace": ["C08"],
-    "m11_try_unique_err_clone": ["C09"],
+    "m11_into_inner_double_drop": ["C09"],
     "m12_into_thin_no_assert": ["C10"],
     "m13_union_drop_no_strip": ["C12"],
     "m14a_overflow_no_check": ["C16"],
     "m14b_overflow_panic": ["C16"],
     "m15_from_header_and_iter_trust_iter": ["C07"],
-    "m16_from_vec_no_set_len": ["C06"],
+    "m16_from_vec_leaks_big_source": ["C06"],
     "m17_new_uninit_wrong_layout": ["C05"],
-    "m18_uninit_slice_drops_elements": ["C15"],
+    "m18_unique_write_assigns": ["C15"],
     "m19a_serde_de_leaks_count": ["C17"],
     "m19b_serde_ser_newtype": ["C17"],
-    "m20_alloc_unwrap_unchecked": ["C07"],
-    "m21_thin_clone_no_inc": ["C01"],
-    "m22_is_unique_le2": ["C03"],
+    "m20_alloc_no_null_check": ["C07"],
+    "m21_thin_clone_releases_when_len5": ["C01", "C10"],
+    "m22_is_unique_le2_for_40_byte_payloads": ["C03"],
     "m23_heap_ptr_data": ["C11"],
     "m24_union_is_first_when_equal_types": ["C12"],
+    "m25_drop_fast_path_acquire_before_sub": ["C02"],
 }
 
 SCRATCH = "/tmp/trisim-selftest"
@@ -74,9 +75,18 @@ def determinism(check):
     shutil.rmtree(out, ignore_errors=True)
     return 0 if bad == 0 else 2
 
-def mutants(check, names):
+def try_patch(check, patch, pids):
+    """Apply one patch to a scratch copy of the repository and run the given checks on it."""
+    name = "try-" + os.path.basename(os.path.dirname(os.path.abspath(patch))) + "-" + os.path.basename(patch).replace(".", "-")
+    EXPECT[name] = pids
+    mdir = os.path.join(SCRATCH, "patches")
+    os.makedirs(mdir, exist_ok=True)
+    shutil.copy(patch, os.path.join(mdir, name + ".diff"))
+    return mutants(check, [name], mdir=mdir, keep_replays=True)
+
+def mutants(check, names, mdir=None, keep_replays=False):
     here = check.HERE
-    mdir = os.path.join(here, "mutants")
+    mdir = mdir or os.path.join(here, "mutants")
     all_names = sorted(f[:-5] for f in os.listdir(mdir) if f.endswith(".diff"))
     names = [n for n in all_names if not names or any(x in n for x in names)]
     results = []
@@ -102,17 +112,30 @@ def mutants(check, names):
             results.append((name, "TESTS-FAIL (not a tests-passing mutant)", " | ".join(tail)))
             shutil.rmtree(work, ignore_errors=True)
             continue
+        # run a private copy of the harness so that nothing (shadow manifest, build output,
+        # evidence, replays) of the real /verif is touched while /repo is swapped for the mutant
+        harness = os.path.join(work, "verif")
+        subprocess.run(["rsync", "-a", "--exclude", "target", "--exclude", ".git", "--exclude", "evidence", "--exclude", "replays", "--exclude", "seeded", "--exclude", "shadow", here + "/", harness + "/"], check=True)
         env2 = dict(os.environ)
-        env2.update(VERIF_REPO=repo, VERIF_TARGET=os.path.join(work, "target"), VERIF_EVID=os.path.join(work, "evidence"), VERIF_REPLAYS=os.path.join(work, "replays"))
+        for k in ("VERIF_TARGET", "VERIF_EVID", "VERIF_REPLAYS"):
+            env2.pop(k, None)
+        env2.update(VERIF_REPO=repo)
         verdicts = []
         for pid in EXPECT.get(name, []):
             t0 = time.time()
-            c = subprocess.run([os.path.join(here, "check"), pid, "quick"], cwd=here, env=env2, stdout=subprocess.PIPE, stderr=subprocess.PIPE, text=True)
+            c = subprocess.run([os.path.join(harness, "check"), pid, "quick"], cwd=harness, env=env2, stdout=subprocess.PIPE, stderr=subprocess.PIPE, text=True)
             viol = [l for l in c.stdout.splitlines() if l.startswith("VIOLATION")]
             detail = [l for l in c.stderr.splitlines() if l.startswith("violation of")]
             verdicts.append((pid, c.returncode, viol[:1], detail[:1], round(time.time() - t0, 1)))
         ok = all(v[1] == 1 and v[2] for v in verdicts)
         results.append((name, "DETECTED" if ok else "MISSED", verdicts))
+        if keep_replays:
+            dst = os.path.join(SCRATCH, "kept", name)
+            shutil.rmtree(dst, ignore_errors=True)
+            if os.path.isdir(os.path.join(harness, "replays")):
+                shutil.copytree(os.path.join(harness, "replays"), dst)
+            if os.path.isdir(os.path.join(harness, "evidence")):
+                shutil.copytree(os.path.join(harness, "evidence"), os.path.join(dst, "evidence"))
         shutil.rmtree(work, ignore_errors=True)
         print(name, results[-1][1], results[-1][2], flush=True)
     print("\n==== mutant sweep ====")
